@@ -10,7 +10,10 @@ junit = os.path.join(out, 'run.junit.xml')
 cmd = b['cmd'].replace('<file>', junit)
 env = dict(os.environ)
 env.pop('CYLC_FLOW_VERIF', None)
-p = subprocess.run(cmd, shell=True, env=env, capture_output=True, text=True)
+log = os.path.join(out, 'pytest.log')
+with open(log, 'w') as lf:
+    subprocess.run(cmd, shell=True, env=env, stdout=lf, stderr=subprocess.STDOUT,
+                   stdin=subprocess.DEVNULL, timeout=3 * 3600)
 passed, failed = set(), set()
 for tc in ET.parse(junit).getroot().iter('testcase'):
     tid = (tc.get('classname') or '') + '::' + (tc.get('name') or '')
@@ -24,6 +27,6 @@ print('passed', len(passed), 'failed', len(failed), 'stable_pass missing',
       len(missing))
 for m in missing[:40]:
     print('  NOT PASSING:', m, '(failed)' if m in failed else '(absent)')
-print(p.stdout[-600:])
+print(open(log).read()[-600:])
 import shutil; shutil.rmtree(out, ignore_errors=True)
 sys.exit(1 if missing else 0)
